@@ -30,7 +30,7 @@ B = [
  ("b10-sorter-chunks-lz4", ["C06", "C18"], [("mtbl/sorter.c", "MTBL_COMPRESSION_SNAPPY", "MTBL_COMPRESSION_LZ4")]),
  ("b12-trailer-written-with-pwrite", ["C20", "C01", "C18", "C09"], [("mtbl/writer.c",
    "\t_write_all(w->fd, tbuf, sizeof(tbuf));",
-   "\t{\n\t\t/* the trailer goes to a known offset */\n\t\tsize_t done = 0;\n\t\toff_t at = lseek(w->fd, 0, SEEK_CUR);\n\t\twhile (at != (off_t)-1 && done < sizeof(tbuf)) {\n\t\t\tssize_t n = pwrite(w->fd, tbuf + done, sizeof(tbuf) - done, at + (off_t)done);\n\t\t\tif (n < 0 && errno == EINTR)\n\t\t\t\tcontinue;\n\t\t\tif (n <= 0)\n\t\t\t\tbreak;\n\t\t\tdone += (size_t)n;\n\t\t}\n\t\tif (done == sizeof(tbuf))\n\t\t\t(void) lseek(w->fd, at + (off_t)done, SEEK_SET);\n\t\telse\n\t\t\t_write_all(w->fd, tbuf + done, sizeof(tbuf) - done);\n\t}")]),
+   "\t{\n\t\t/* the trailer goes to a known offset */\n\t\tsize_t done = 0;\n\t\toff_t at = lseek(w->fd, 0, SEEK_CUR);\n\t\twhile (at != (off_t)-1 && done < sizeof(tbuf)) {\n\t\t\tssize_t n = pwrite(w->fd, tbuf + done, sizeof(tbuf) - done, at + (off_t)done);\n\t\t\tif (n < 0 && errno == EINTR)\n\t\t\t\tcontinue;\n\t\t\tif (n <= 0) {\n\t\t\t\tfprintf(stderr, \"%s: pwrite() failed: %s\\n\", __func__, strerror(errno));\n\t\t\t\tabort();\n\t\t\t}\n\t\t\tdone += (size_t)n;\n\t\t}\n\t\tif (done == sizeof(tbuf))\n\t\t\t(void) lseek(w->fd, at + (off_t)done, SEEK_SET);\n\t\telse\n\t\t\t_write_all(w->fd, tbuf + done, sizeof(tbuf) - done);\n\t}")]),
  ("b13-sorter-template-renamed", ["C06", "C18"], [("mtbl/sorter.c", "\"/.mtbl.%ld.XXXXXX\"", "\"/mtbl-sort-%ld-XXXXXX\"")]),
  ("b14-pool-broadcasts", ["C13", "C14", "C06"], [("mtbl/threadpool.c", "pthread_cond_signal(&thr->pool->c);", "pthread_cond_broadcast(&thr->pool->c);"), ("mtbl/threadpool.c", "\t\t\tpthread_cond_signal(&me->c);", "\t\t\tpthread_cond_broadcast(&me->c);")]),
  ("b15-builder-starts-smaller", ["C01", "C09", "C10"], [("mtbl/block_builder.c", "b->buf = ubuf_init(65536);", "b->buf = ubuf_init(4096);")]),
